@@ -333,7 +333,7 @@ namespace Pistache::Tcp
 
                         // Cast to match the type of defered template
                         // to avoid a BadType exception
-                        deferred.resolve(static_cast<ssize_t>(totalWritten));
+                        deferred.resolve(static_cast<ssize_t>(buffer.sentBefore() + totalWritten));
                         break;
                     }
                 }
